@@ -60,7 +60,8 @@ struct Test {
     std::map<int, uint64_t> ping_nonce;
     std::set<std::string> confirmed;
 
-    explicit Test(NetSim& s) EXCLUSIVE_LOCKS_REQUIRED(NetEventsInterface::g_msgproc_mutex) : S(s)
+    // `used`: the normal peers the test talks to (the others would only cost their bloom filters)
+    Test(NetSim& s, const std::set<int>& used) EXCLUSIVE_LOCKS_REQUIRED(NetEventsInterface::g_msgproc_mutex) : S(s)
     {
         if (S.coins.size() < 10 || S.coins.front().out.nValue > COIN) throw std::runtime_error("out of coins");
         SentLog().clear();
@@ -71,7 +72,9 @@ struct Test {
         PeerSpec p1; p1.conn = ConnectionType::MANUAL;
         PeerSpec p2; p2.conn = ConnectionType::INBOUND;
         PeerSpec p3; p3.conn = ConnectionType::INBOUND; p3.perms = NetPermissionFlags::NoBan;
-        peer[1] = &S.AddPeer(p1); peer[2] = &S.AddPeer(p2); peer[3] = &S.AddPeer(p3);
+        if (used.count(1)) peer[1] = &S.AddPeer(p1);
+        if (used.count(2)) peer[2] = &S.AddPeer(p2);
+        if (used.count(3)) peer[3] = &S.AddPeer(p3);
         for (auto& [i, n] : peer) { S.Pump(*n); if (n->fDisconnect) throw std::runtime_error("peer disconnected after handshake"); }
     }
     ~Test()
@@ -221,8 +224,13 @@ int Replay(const std::string& path)
         std::string why;
         try {
             if (w.sim->coins.size() < 60) w.Split(20);
-            Test T(*w.sim);
             const UniValue& st = t["steps"];
+            std::set<int> used;
+            for (size_t i = 0; i < st.size(); ++i) {
+                const std::string op = st[i]["a"][0].get_str();
+                if (op == "trickle" || op == "getdata" || op == "peertx") used.insert(st[i]["a"][1].getInt<int>());
+            }
+            Test T(*w.sim, used);
             for (size_t i = 0; i < st.size() && why.empty(); ++i) {
                 R().cur_step = i; R().cur_action = st[i]["a"];
                 UniValue others(UniValue::VARR);
@@ -296,7 +304,8 @@ int Drive(uint64_t seed, int episodes, size_t maxtx, size_t maxatt)
                 const auto res = pb.Remove(txs[ti]);
                 e = Obj({{"e", "remove"}, {"tx", names[ti]}, {"res", Obj({{"found", res.has_value()}, {"confirmed", (int64_t)res.value_or(0)}})}});
             } else if (r < 58) {
-                const NodeId id = ++next_node;
+                // mostly a fresh connection; now and then one that asked before (the class must not give it a second transaction)
+                const NodeId id = (next_node > 0 && rng.randrange(8) == 0) ? 1 + (NodeId)rng.randrange(next_node) : ++next_node;
                 const auto res = pb.PickTxForSend(id, CService{});
                 e = Obj({{"e", "pick"}, {"node", (int64_t)id}, {"res", res ? name_of(*res) : std::string("none")}});
             } else if (r < 66) {
